@@ -314,7 +314,16 @@ def _stub_harness(eng, sp, ORToolsSolver, NoSolutionFoundError):
     StubSolver.ctx = ctx
     inst, desc = D.build_instance(eng, sp["shape"], sp["machines"], dmin=0)
     ctx.desc = desc
-    solver = ORToolsSolver()
+    # the documented attribute max_time_in_seconds may be assigned after construction: the solve must run with the current value
+    variant = (sum(sp["shape"]) + len(sp["shape"])) % 2
+    if variant == 0:
+        solver = ORToolsSolver(max_time_in_seconds=3.0)
+        solver.max_time_in_seconds = None
+        want_limit = None
+    else:
+        solver = ORToolsSolver()
+        solver.max_time_in_seconds = 11.0
+        want_limit = 11.0
     if sp["reuse"]:
         # an earlier solve() of a different instance on the same solver object, under a time limit that is lifted afterwards
         from job_shop_lib import JobShopInstance, Operation
@@ -323,7 +332,7 @@ def _stub_harness(eng, sp, ORToolsSolver, NoSolutionFoundError):
         ctx.check = False
         solver.max_time_in_seconds = 7.0
         solver(prior)
-        solver.max_time_in_seconds = None
+        solver.max_time_in_seconds = want_limit
         ctx.check = True
     want_error = sp["status"] not in ("optimal", "feasible")
     try:
@@ -348,6 +357,9 @@ def _stub_harness(eng, sp, ORToolsSolver, NoSolutionFoundError):
         return
     eng.reachable("state")
     eng.reachable("transition")
+    got_limit = getattr(StubSolver.last.parameters, "max_time_in_seconds", None)
+    if got_limit != want_limit:
+        eng.fail("C03/solve-ignores-the-current-max_time_in_seconds", f"solver ran with {got_limit}, attribute is {want_limit}")
     # layer 3: the model recorded on the reused solver equals the one a fresh solver records
     if sp["reuse"]:
         reused_params = StubSolver.last.parameters
@@ -363,7 +375,10 @@ def _stub_harness(eng, sp, ORToolsSolver, NoSolutionFoundError):
         StubSolver.ctx = ctx
         if ctx.models[-1].log != ctx2.models[-1].log:
             eng.fail("C03/reused-solver-records-a-different-model", f"{ctx.models[-1].log} vs {ctx2.models[-1].log}")
-        if vars(reused_params) != vars(StubSolver.last.parameters):
+        fresh_params = dict(vars(StubSolver.last.parameters))
+        if want_limit is not None:
+            fresh_params["max_time_in_seconds"] = want_limit
+        if vars(reused_params) != fresh_params:
             eng.fail("C03/reused-solver-runs-with-parameters-of-an-earlier-solve",
                      f"{vars(reused_params)} vs fresh {vars(StubSolver.last.parameters)}")
     check_schedule(eng, desc, inst, sched, sp["status"], all_histories(desc) if sp["status"] == "optimal" else None)
